@@ -22,7 +22,6 @@ Definition pkind_eqb (a b : pkind) : bool :=
   end.
 Definition pev_eqb (a b : pev) : bool :=
   pkind_eqb (ev_kind a) (ev_kind b) && (ev_tx a =? ev_tx b) && (ev_flag a =? ev_flag b).
-Definition kv_eqb : list (bytes * bytes) -> list (bytes * bytes) -> bool := list_eqb (pair_eqb bytes_eqb bytes_eqb).
 
 Definition pobs_eqb (a b : pobs) : bool :=
   pres_eqb (o_res a) (o_res b) && (o_open a =? o_open b) && kv_eqb (o_comm a) (o_comm b)
@@ -36,22 +35,27 @@ Definition pg_corr_ok (pc : pgcase) : bool :=
 Definition pg_mismatches (cs : list pgcase) : list N := bad_indices pg_corr_ok cs.
 
 (* the C13 monitor on what the real code did *)
-Definition pg_obs_checks (pc : pgcase) : list mcheck := mon_run (pc_cfg pc) (m_init (pc_init pc)) (pc_ops pc) (pc_obs pc).
+Definition pg_obs_checks (pc : pgcase) : list mcheck := mon_run (pc_cfg pc) (m_init (pc_cfg pc) (pc_init pc)) (pc_ops pc) (pc_obs pc).
 Definition c13_ok (pc : pgcase) : bool := c13_full (pg_obs_checks pc).
 
-(* Classification of the failing steps of a case.
+(* Classification of the failing steps of a case (only if the real code behaved exactly as the
+   faithful model predicts; otherwise class 0 = unknown).
    class 1 = K-C13-stickymulti: a hygiene/recovery demand fails at a step at or after the first step
      inside the guard (a single operation issued after some Start had succeeded and outside an
-     explicit transaction), and the real code behaved exactly as the faithful model predicts.
-   class 0 = unknown (any failure of the fault-is-reported demand is unknown: the model satisfies
-     it on every history, C13_fault_reports_error). *)
+     explicit transaction);
+   class 4 = K-C13-dumpswallow: the fault-is-reported demand fails at a Dump in which a fault fired
+     at or after its deferred Commit (the Commit error is dropped, a failed fetch/Scan silently ends
+     the iteration).
+   (class 2 was K-C13-trfetch, repaired by 8748493; class 3 was K-C13-dumpleak, repaired by f3dc6ab;
+   the numbers are not reused.) *)
 Definition step_classes (k : mcheck) : list N :=
-  (if k_fault k then [] else [0])
+  (if k_fault k then [] else [if k_dsw k then 4 else 0])
   ++ (if k_hyg k && k_rec k then [] else [if k_hit k then 1 else 0]).
 Definition mem_n (x : N) (l : list N) : bool := existsb (N.eqb x) l.
 Definition pg_classes (pc : pgcase) : list N :=
   let cl := flat_map step_classes (pg_obs_checks pc) in
-  if mem_n 0 cl || negb (pg_corr_ok pc) then [0] else [1].
+  if mem_n 0 cl || negb (pg_corr_ok pc) then [0]
+  else filter (fun x => mem_n x cl) [1; 4].
 
 Definition pg_violations (cs : list pgcase) : list (N * N) :=
   flat_map (fun i => map (fun cl => (i, cl))
